@@ -4,9 +4,10 @@ import PygVerif.Generated
 
 `Generated.initTable` is produced on every run by *executing* `/repo`'s
 `initialization.initialize` under substituted privileged calls, for all 16
-(tls, chroot, setuid, setgid) combinations, every fault position and six failure classes
-(`PermissionError`, `FileNotFoundError`, `KeyError`, `ssl.SSLError`, `RuntimeError` and a private
-`OSError` subclass): a handler that tolerates one class of failure changes the table.  `table_agrees`
+(tls, chroot, setuid, setgid) combinations, every fault position and eight failure classes
+(`PermissionError`, `FileNotFoundError`, `KeyError`, `ssl.SSLError`, `RuntimeError`, a private
+`OSError` subclass, and `EAGAIN` / `EINTR` that persist when the step is tried again): a handler that
+tolerates or retries one class of failure changes the table.  `table_agrees`
 is the correspondence, checked by the kernel: a reordered, swallowed or added call in the
 code changes the table and this theorem stops compiling.  The remaining theorems are about
 the model `Init.run`, for every configuration and every fault position (unbounded index).
